@@ -598,3 +598,57 @@ def download_recycles_rule(ctx, rule):
     ck.expect(p is None, rule, dl.qual, 'download() ends with self.recycle() on every normal path',
               'a completed download does not give its connection back: the web session recycles only the session of the last redirect hop, '
               'so every followed redirect leaks a connection and the host\'s pool runs dry', dl.loc())
+
+
+def acquire_release_pairing_lint(ctx, rule, prefixes):
+    """A coroutine that takes an asyncio semaphore / lock by hand (`yield from X.acquire()`, not `with`) gives it back on every
+    feasible normal path to its exit - decided with the flag correlations of the function itself (`use_log = True ... if use_log:
+    X.release()`).  A task that keeps the resource-monitor semaphore parks every later item in acquire() for good."""
+    import ast
+    from .. import flow as F
+    from .. import util as U
+    from ..index import norm_text
+    repo, ck = ctx.repo, ctx.check
+    n = 0
+    for f in repo.funcs.values():
+        mn = f.module.name
+        if not mn.startswith(tuple(prefixes)) or mn.endswith('_test'):
+            continue
+        acq = [c for c in U.calls(f.node) if U.attr_name(c) == 'acquire' and isinstance(c.func, ast.Attribute) and not c.args]
+        if not acq:
+            continue
+        cfg = ctx.cfg(f)
+        for c in acq:
+            recv = norm_text(c.func.value)
+            nodes = [x for x in cfg.stmt_nodes() if any(y is c for y in F.node_calls(x))]
+            n += 1
+            if not nodes or nodes[0].kind == 'with':
+                ck.ok(rule, f.qual, '%s taken in a `with` block' % recv)
+                continue
+            rel = lambda x, recv=recv: any(U.attr_name(y) == 'release' and isinstance(y.func, ast.Attribute) and norm_text(y.func.value) == recv
+                                           for y in F.node_calls(x))
+            # what the straight-line code in front of the acquire establishes (`use_log = True`)
+            init, cur = {}, nodes[0]
+            while True:
+                preds = [(a, k) for a, k in cur.pred if F.normal(a, cur, k)]
+                if len(preds) == 1 and preds[0][0].kind == 'if' and preds[0][1] in ('T', 'F'):
+                    for name, c_, allowed in F._constraints(preds[0][0].stmt.test, preds[0][1] == 'T'):
+                        init.setdefault((name, c_), frozenset(allowed))
+                    cur = preds[0][0]
+                    continue
+                if len(preds) != 1 or preds[0][0].kind != 'stmt':
+                    break
+                cur = preds[0][0]
+                a_ = cur.stmt
+                if isinstance(a_, ast.Assign) and len(a_.targets) == 1 and isinstance(a_.targets[0], ast.Name):
+                    key = (a_.targets[0].id, 0)
+                    if key not in init and isinstance(a_.value, ast.Constant) and isinstance(a_.value.value, (bool, int)):
+                        v_ = int(a_.value.value)
+                        init[key] = frozenset(['eq'] if v_ == 0 else (['gt'] if v_ > 0 else ['lt']))
+                    elif key not in init:
+                        init[key] = frozenset(('lt', 'eq', 'gt'))
+            p = F.feasible_path(cfg, nodes[0], lambda m: m is cfg.exit, stop=rel, edge_ok=F.normal, init=init)
+            ck.expect(p is None, rule, f.qual, '%s.acquire() is matched by %s.release() on every feasible normal path' % (recv, recv),
+                      'a path from the acquire to the end of %s does not release %s: the next task to reach acquire() waits for ever and '
+                      'the pipeline never finishes' % (f.name, recv), f.loc(c))
+    return n
